@@ -432,12 +432,12 @@ CORPUS = [
 
 
 def gen_cases(rng, tier):
-    nc = int(os.environ.get('VERIF_NCASES', 40 if tier == 'quick' else 400))
+    nc = int(os.environ.get('VERIF_NCASES', 34 if tier == 'quick' else 400))
     profiles = ['mixed', 'dcstep', 'multi', 'sdom', 'noise', 'ac', 'res', 'ivp', 'mixed', 'multi', 'res']
     cases = [dict(c) for c in CORPUS]
     for i in range(nc):
         cases.append(gen_circuit(rng, profiles[i % len(profiles)], tier))
-    ncont = int(os.environ.get('VERIF_NCONT', 160 if tier == 'quick' else 1500))
+    ncont = int(os.environ.get('VERIF_NCONT', 130 if tier == 'quick' else 1500))
     for i in range(ncont):
         cases.append(gen_container(rng))
     for i in range(12 if tier == 'quick' else 60):
